@@ -327,6 +327,25 @@ func readAll(data []byte, ring parquet.KeyRetriever, cols []ref.Column) (rows []
 	return rows, nil, nil
 }
 
+// readAllFile reads every row of an opened file through its row groups.
+func readAllFile(f *parquet.File) (rows []parquet.Row, err error, panicked any) {
+	defer func() {
+		if r := recover(); r != nil {
+			panicked = r
+		}
+	}()
+	for _, rg := range f.RowGroups() {
+		r := rg.Rows()
+		got, err := pq.ReadAllRows(r, 40)
+		r.Close()
+		rows = append(rows, got...)
+		if err != nil {
+			return rows, err, nil
+		}
+	}
+	return rows, nil, nil
+}
+
 func prefixDiff(cols []ref.Column, want [][][]ref.LV, got []parquet.Row) string {
 	if len(got) > len(want) {
 		return fmt.Sprintf("%d rows delivered, %d written", len(got), len(want))
@@ -479,11 +498,24 @@ func runCaseInner(c Case, o *kit.Obs) *kit.Failure {
 					if rerr == nil && len(vals) > 0 {
 						return kit.Failf("c18/missing-key-data"+feat, "row group %d: column %d was read (%d values) without its key", gi, ci, len(vals))
 					}
+					if rerr == nil && rg.NumRows() > 0 {
+						return kit.Failf("c18/missing-key-silent"+feat, "row group %d (%d rows): reading column %d without its key ended without an error (no values)", gi, rg.NumRows(), ci)
+					}
 					continue
 				}
 				if rerr != nil {
 					return kit.Failf("c18/missing-key-other-column"+feat, "row group %d: column %d failed although its key is available: %v", gi, ci, rerr)
 				}
+			}
+		}
+		// reading whole rows needs the missing column: an error, not a panic and not rows
+		if len(want) > 0 {
+			got, rerr, p := readAllFile(f)
+			if p != nil {
+				return kit.Failf("c18/missing-key-panic"+feat, "reading rows with the key of column %d missing: panic: %v", mc, p)
+			}
+			if rerr == nil {
+				return kit.Failf("c18/missing-key-rows"+feat, "reading rows with the key of column %d missing returned no error (%d rows)", mc, len(got))
 			}
 		}
 		o.Class("missing-key")
